@@ -165,7 +165,10 @@ func (c06) Exec(c Case) []string {
 				p = stanza.Presence{Attrs: attrs}
 			case op[1] == "iq":
 				iq := &stanza.IQ{Attrs: attrs}
-				if op[3] != "~" {
+				if strings.HasPrefix(op[3], "@") {
+					// a payload nobody registered: the parser keeps it as a generic node in IQ.Any
+					iq.Any = &stanza.Node{XMLName: xml.Name{Space: unhx(op[3][1:]), Local: "query"}}
+				} else if op[3] != "~" {
 					iq.Payload = &fakePayload{ns: unhx(op[3])}
 				}
 				if attrs.Type == stanza.IQTypeError {
@@ -266,6 +269,12 @@ func c06packets() [][]string {
 		ps = append(ps, []string{"pkt", "iq", hx(t), hx("urn:x"), "-", hx("srv"), hx("me@x/r")})
 		ps = append(ps, []string{"pkt", "iq", hx(t), "~", "-", "-", "-"})
 		ps = append(ps, []string{"pkt", "iq", hx(t), hx("urn:x"), hx(" "), hx("srv"), hx("me@x/r")})
+	}
+	// requests and responses whose payload nobody registered (kept in IQ.Any): unmatched requests get the same automatic
+	// error as any other
+	for _, t := range []string{"get", "set", "result", "error"} {
+		ps = append(ps, []string{"pkt", "iq", hx(t), "@" + hx("urn:verif:unregistered"), hx("any-" + t), hx("srv"), hx("me@x/r")})
+		ps = append(ps, []string{"pkt", "iq", hx(t), "@" + hx("jabber:iq:version"), hx("anyv-" + t), hx("a@x/r"), "-"})
 	}
 	for _, o := range []string{"other:streamerror", "other:smr", "other:sma", "other:features", "other:handshake"} {
 		ps = append(ps, []string{"pkt", o, "-", "~", "-", "-", "-"})
